@@ -19,7 +19,8 @@ RULE = ("cases = (statusword) decodes over all 65536 values by SDO (and a sample
         "automatic transitions, extra status bits, controlword transport, statusword transport) assignments to node.state for "
         "all 8 x 8 pairs plus the pseudo targets, every schedule up to length 5 (thorough: 7) for the two states with a pending "
         "automatic transition; (mode, supported-modes mask, displayed mode, confirmation lag, transport) op_mode assignments; "
-        "is_op_mode_supported and next_state_indirect calls; non-trivial = a decode of a non-zero statusword, an assignment with "
+        "the PDO-routed decodes, assignments and op_mode cases also with the object mapped in two enabled TPDOs of which the drive "
+        "sends only one (each in turn); is_op_mode_supported and next_state_indirect calls; non-trivial = a decode of a non-zero statusword, an assignment with "
         "start != target, an op_mode case with a non-zero mask; distinct by canonical JSON of the case")
 EXHAUSTIVE = {"quick": True, "thorough": True}
 EXPLANATION = ("all 65536 statuswords and all 8 x 8 (state, target) pairs are run through the implementation and the oracle in "
@@ -127,8 +128,9 @@ class _HookDict(dict):
         return v
 
 
-def _make_node(rx=(), tx=()):
-    """rx / tx: object indices carried by RPDO / TPDO (one PDO each); everything else goes by SDO.
+def _make_node(rx=(), tx=(), tx_types=None):
+    """rx / tx: object indices carried by RPDO / TPDO (one PDO each; a tuple = several objects in that PDO);
+    tx_types: transmission type of each TPDO (default 255, event driven); everything else goes by SDO.
     Returns (node, net, sdo_handlers) where sdo_handlers maps index -> (read, write)."""
     canopen, p402, od, Net = _lib()
     p402.time.t = 0.0
@@ -156,8 +158,11 @@ def _make_node(rx=(), tx=()):
         m.cob_id = 0x200 + 0x100 * k + NODE_ID; m.enabled = True; m.trans_type = 255
     for k, idx in enumerate(tx):
         m = node.tpdo[k + 1]
-        m.clear(); m.add_variable(idx)
-        m.cob_id = 0x180 + 0x100 * k + NODE_ID; m.enabled = True; m.trans_type = 255
+        m.clear()
+        for i in (idx if isinstance(idx, tuple) else (idx,)):
+            m.add_variable(i)
+        m.cob_id = 0x180 + 0x100 * k + NODE_ID; m.enabled = True
+        m.trans_type = tx_types[k] if tx_types else 255
     if rx or tx:
         node.setup_402_state_machine(read_pdos=False)
     return node, net, sdo
@@ -168,23 +173,47 @@ def _tpdo_sender(net, k, fmt):
     return lambda value: net.notify(cob, bytearray(struct.pack(fmt, value)), None)
 
 
+# Layouts with the object mapped in TWO enabled TPDOs (the CiA 402 default mapping has the statusword in all of
+# them) of which the drive sends only one: the other is enabled but remote-request only (type 253, never
+# requested).  case["tpdo"] = 0 / 1 says which one the drive sends.  The last received value counts, whichever
+# TPDO carried it, so the expected behaviour is that of the single-TPDO case (same model term).
+def _multi_layout(index, other, sent):
+    """-> (tx, tx_types, sender factory): TPDO1 = [index], TPDO2 = [other-or-index ..]; `sent` is event driven."""
+    fmt = {0x6041: "H", 0x6061: "b"}
+    tx = ((index,), (0x6041, 0x6061))
+    types = [253, 253]
+    types[sent] = 255
+    def sender(net):
+        cob = 0x180 + 0x100 * sent + NODE_ID
+        if sent == 0:
+            return lambda value: net.notify(cob, bytearray(struct.pack("<" + fmt[index], value)), None)
+        if index == 0x6041:
+            return lambda value: net.notify(cob, bytearray(struct.pack("<Hb", value, other)), None)
+        return lambda value: net.notify(cob, bytearray(struct.pack("<Hb", other, value)), None)
+    return tx, types, sender
+
+
 # ------------------------------------------------------------------ implementation runs
-def _decode_node(via):
-    key = "dec_" + via
+def _decode_node(via, multi=None):
+    key = "dec_" + via + str(multi)
     if key not in _state:
         holder = [0]
         if via == "sdo":
             node, net, sdo = _make_node()
             sdo[0x6041] = (lambda: struct.pack("<H", holder[0]), None)
             _state[key] = (node, holder, None)
-        else:
+        elif multi is None:
             node, net, sdo = _make_node(tx=(0x6041,))
             _state[key] = (node, holder, _tpdo_sender(net, 0, "<H"))
+        else:
+            tx, types, sender = _multi_layout(0x6041, 3, multi)
+            node, net, sdo = _make_node(tx=tx, tx_types=types)
+            _state[key] = (node, holder, sender(net))
     return _state[key]
 
 
 def run_decode(c):
-    node, holder, send = _decode_node(c.get("via", "sdo"))
+    node, holder, send = _decode_node(c.get("via", "sdo"), c.get("tpdo"))
     holder[0] = c["sw"]
     if send: send(c["sw"])
     return S(node.state)
@@ -192,7 +221,12 @@ def run_decode(c):
 
 def run_set(c):
     cw_pdo, sw_pdo = c["cw"] == "pdo", c["sw"] == "pdo"
-    node, net, sdo = _make_node(rx=(0x6040,) if cw_pdo else (), tx=(0x6041,) if sw_pdo else ())
+    multi = c.get("tpdo") if sw_pdo else None
+    if multi is None:
+        node, net, sdo = _make_node(rx=(0x6040,) if cw_pdo else (), tx=(0x6041,) if sw_pdo else ())
+    else:
+        tx, types, sender = _multi_layout(0x6041, 1, multi)
+        node, net, sdo = _make_node(rx=(0x6040,) if cw_pdo else (), tx=tx, tx_types=types)
     d = R.Drive402(c["start"], c["sched"], c["extra"])
     read_status = _limited(d.read_status)
     sdo[0x6041] = (lambda: struct.pack("<H", read_status()), None)
@@ -200,7 +234,7 @@ def run_set(c):
     if cw_pdo:
         net.handlers[0x200 + NODE_ID] = lambda data: d.write_controlword(struct.unpack("<H", data[:2])[0])
     if sw_pdo:
-        send = _tpdo_sender(net, 0, "<H")
+        send = _tpdo_sender(net, 0, "<H") if multi is None else sender(net)
         send(d.statusword())                    # the cached statusword is in sync at the start
         d.on_change = send
         node.tpdo_values.hooks[0x6041] = read_status
@@ -214,7 +248,12 @@ def run_set(c):
 
 def run_opmode(c):
     pdo = c["via"] == "pdo"
-    node, net, sdo = _make_node(rx=(0x6060,) if pdo else (), tx=(0x6061,) if pdo else ())
+    multi = c.get("tpdo") if pdo else None
+    if multi is None:
+        node, net, sdo = _make_node(rx=(0x6060,) if pdo else (), tx=(0x6061,) if pdo else ())
+    else:
+        tx, types, sender = _multi_layout(0x6061, 0x0237, multi)
+        node, net, sdo = _make_node(rx=(0x6060,), tx=tx, tx_types=types)
     m = R.ModeDrive(c["support"], c["display"], c["lag"])
     read_display = _limited(m.read_display)
     sdo[0x6502] = (lambda: struct.pack("<L", m.read_support()), None)
@@ -222,7 +261,7 @@ def run_opmode(c):
     sdo[0x6060] = (None, lambda data: m.write_mode(struct.unpack("<b", data)[0]))
     if pdo:
         net.handlers[0x200 + NODE_ID] = lambda data: m.write_mode(struct.unpack("<b", data[:1])[0])
-        send = _tpdo_sender(net, 0, "<b")
+        send = _tpdo_sender(net, 0, "<b") if multi is None else sender(net)
         send(m.display)
         m.on_change = send
         node.tpdo_values.hooks[0x6061] = read_display
@@ -259,6 +298,10 @@ def impl(c):
 
 
 # ------------------------------------------------------------------ oracle (CiA 402, via the reference drive only)
+def _lay(c):
+    return "" if c.get("tpdo") is None else f" [object mapped in TPDO1 and TPDO2, drive sends TPDO{c['tpdo'] + 1}]"
+
+
 def oracle(c, o):
     k = c["kind"]
     if k == "decode":
@@ -266,14 +309,14 @@ def oracle(c, o):
         if exp == "AMBIGUOUS":
             return ("patterns_not_exclusive", f"statusword {c['sw']:#06x} matches {R.cia_states_of(c['sw'])}")
         if o != S(exp):
-            return ("decode_wrong", f"statusword {c['sw']:#06x} ({c.get('via', 'sdo')}) reported as {o!r}, CiA 402 says {exp}")
+            return ("decode_wrong", f"statusword {c['sw']:#06x} ({c.get('via', 'sdo')}{_lay(c)}) reported as {o!r}, CiA 402 says {exp}")
         return None
     if k == "set":
         if c["target"] not in R.NAMES:
             return None
         t = R.NAMES.index(c["target"])
         res, cws, final, trace, reads = o
-        tr = f"{R.NAMES[c['start']]} -> {c['target']} sched={c['sched']} extra={c['extra']:#x} cw/{c['cw']} sw/{c['sw']}"
+        tr = f"{R.NAMES[c['start']]} -> {c['target']} sched={c['sched']} extra={c['extra']:#x} cw/{c['cw']} sw/{c['sw']}{_lay(c)}"
         if t in R.COMMANDABLE:
             if isinstance(res, Err):
                 return ("commanded_transition_fails", f"{tr}: raised {res!r}; controlwords {cws}, drive ends in {R.NAMES[final]}")
@@ -300,7 +343,7 @@ def oracle(c, o):
         code, bit = R.MODES[c["mode"]]
         res, writes, reads = o
         adv = bit is None or (c["support"] >> bit) & 1 == 1
-        what = f"mode {c['mode']} support={c['support']:#x} display={c['display']} lag={c['lag']} via {c['via']}"
+        what = f"mode {c['mode']} support={c['support']:#x} display={c['display']} lag={c['lag']} via {c['via']}{_lay(c)}"
         if not adv:
             if writes or not isinstance(res, Err):
                 return ("unadvertised_mode_accepted", f"{what}: result {res!r}, written {writes}")
@@ -413,6 +456,23 @@ def gen_cases(rng, tier):
                           target=rng.choice(targets + PSEUDO_TARGETS[2:]),
                           sched=[int(rng.random() < p) for _ in range(n)], extra=rng.randrange(65536)))
 
+    # statusword mapped in two enabled TPDOs, the drive sends only one of them (each in turn)
+    for sent in (0, 1):
+        for start in range(8):
+            for tgt in R.NAMES:
+                for cw in (("pdo",) if tier == "quick" else ("pdo", "sdo")):
+                    for sched in ([[], [0, 0, 1]] if start in (R.NR, R.FRA) else [[]]):
+                        cases.append(dict(kind="set", cw=cw, sw="pdo", tpdo=sent, start=start, target=tgt, sched=list(sched),
+                                          extra=rng.choice(EXTRAS)))
+        for start in (R.NR, R.FRA):
+            for tgt in R.NAMES[1:6]:
+                for sched in all_scheds(3 if tier == "quick" else 5):
+                    cases.append(dict(kind="set", cw="pdo", sw="pdo", tpdo=sent, start=start, target=tgt, sched=sched,
+                                      extra=rng.choice(EXTRAS)))
+        mstep = {"quick": 509, "thorough": 53, "search": 257}[tier]
+        cases += [dict(kind="decode", sw=sw, via="pdo", tpdo=sent, model=(tier != "search" and sw % 4 == 0))
+                  for sw in list(range(0, 256)) + list(range(256, 65536, mstep))]
+
     # ---- operation modes
     masks = [0, 0x3FF, 0xFFFFFFFF, 0x10, 0xFFFFFFEF] + [1 << b for b in range(0, 11)] + [0x3FF ^ (1 << b) for b in range(0, 10)]
     masks += [rng.getrandbits(32) for _ in range({"quick": 10, "thorough": 100, "search": 40}[tier])]
@@ -428,6 +488,12 @@ def gen_cases(rng, tier):
         for mode in R.MODES:
             for support in range(0, 1024):
                 cases.append(dict(kind="supported", mode=mode, support=support, model=(support % 16 == 5)))
+    # mode display mapped in two enabled TPDOs, the drive sends only one of them
+    for sent in (0, 1):
+        for mode in R.MODES:
+            for support in masks[:5] + [rng.choice(masks[5:26])]:
+                cases.append(dict(kind="opmode", via="pdo", tpdo=sent, mode=mode, support=support,
+                                  display=rng.choice(VALID_CODES), lag=rng.choice([0, 1, 2])))
     for mode in R.MODES:
         for via in ("sdo", "pdo"):
             for display in VALID_CODES + [-1, 5]:
@@ -451,11 +517,15 @@ def shrink(c):
             yield dict(c, cw="sdo")
         if c["sw"] != "sdo":
             yield dict(c, sw="sdo")
+        if c.get("tpdo") is not None:
+            yield {k: v for k, v in c.items() if k != "tpdo"}
     elif c["kind"] == "opmode":
         if c["lag"]:
             yield dict(c, lag=0)
         if c["via"] != "sdo":
             yield dict(c, via="sdo")
+        if c.get("tpdo") is not None:
+            yield {k: v for k, v in c.items() if k != "tpdo"}
         for b in range(32):
             if c["support"] >> b & 1:
                 yield dict(c, support=c["support"] & ~(1 << b))
